@@ -8,7 +8,8 @@ GSeq == SetToSeq(Gs)
 Starts == <<0, 1, 30000, 65000, 65500, 65535>>
 Cap == Mtu - 12
 \* call k of packetizer i needs 1..4 packets (one call in seven is empty and needs none)
-Size(i, k, salt) == LET n == (i * 7 + k * 3 + salt) % 7 IN IF n = 0 THEN 0 ELSE IF n >= 5 THEN 1 ELSE ((n - 1) * Cap) + 1 + ((i + k) % Cap)
+\* ... and one in seven is a GeneratePadding(1..3) call, written as 100000 + count
+Size(i, k, salt) == LET n == (i * 7 + k * 3 + salt) % 7 IN IF n = 0 THEN 0 ELSE IF n = 6 THEN 100001 + ((i + k) % 3) ELSE IF n = 5 THEN 1 ELSE ((n - 1) * Cap) + 1 + ((i + k) % Cap)
 Case(gi, si, salt) ==
   [fam |-> "G08", start |-> Starts[si], mtu |-> Mtu,
    sizes |-> [i \in 1..GSeq[gi] |-> [k \in 1..CallsPer |-> Size(i, k, salt)]],
